@@ -21,6 +21,7 @@ fn spec() -> Spec {
         kinds: vec![
             Kind { name: "detection", quick: 1_000_000, thorough: 20_000_000, serial: false },
             Kind { name: "continuity", quick: 500_000, thorough: 10_000_000, serial: false },
+            Kind { name: "continuity_with_shape", quick: 3_000, thorough: 100_000, serial: false },
         ],
         rule: "detection: non-degenerate robot (64 sign patterns, zero / right-angle / uniform offsets) x q with model angle t5 = k*pi + delta, k=-2..2, delta = +-{0,1e-9,0.5,0.9}*band (must be reported singular) or +-{1.1,2,100}*band (must not), band = 0.01 degree; expectation decided geometrically from the angle between the J4 axis and the J6 axis of the reference chain. continuity: t5 = 0 exactly, requested pose = FK(q); (1) previous = q: first continuation answer must equal q; (2) previous = q with J4,J6 shifted by (+e,-e'): an answer on the same arm with J5 at the singularity must have moved J4 and J6 by the same model-angle amount. Evaluated only when the arm sensitivity ||J_wc^-1||_F <= 3 rad/m and no other IK branch is within 0.02 rad of singular. non-trivial = conclusive case; distinct = hash(robot, q)",
         assumptions: vec![
@@ -34,7 +35,89 @@ fn spec() -> Spec {
 
 const BAND: f64 = 0.01 * PI / 180.0;
 
+/// Clause "the first continuation answer equals the previous joints" through the collision-aware robot
+/// (its filter runs on the rayon pool): repeated calls, since an order-destroying filter shows only under
+/// some schedules.
+fn continuity_with_shape(idx: u64, rng: &mut Rng, mon: &mut Mon) {
+    use crate::cell::Cell;
+    let mut cell = Cell::generate(rng, idx, true, true, false);
+    let rp = cell.robot.rp;
+    let free = cell.build();
+    let mut found = None;
+    for _ in 0..20 {
+        let t = crate::props::c10::gen_posture(rng);
+        let mut q = rp.from_theta(&t);
+        place_t5(&rp, &mut q, 0, 0.0);
+        let m = sing_measures(&rp, &q);
+        if q.iter().all(|x| x.abs() < 3.2) && m.elbow >= 1e-2 && m.shoulder >= 1e-2 && wc_sensitivity(&rp, &q) <= 3.0 && !free.collides(&q) {
+            found = Some(q);
+            break;
+        }
+    }
+    let q = match found {
+        Some(q) => q,
+        None => {
+            mon.inconclusive("continuity_with_shape:no-suitable-posture");
+            return;
+        }
+    };
+    let sens = wc_sensitivity(&rp, &q);
+    // no other branch of the (flange) pose may be near-singular
+    let bare = OPWKinematics::new(to_params(&rp));
+    let flange = fk(&rp, &q);
+    let tilted = fr_to_iso(&flange.mul(&Fr::new(rotx(1e-3), [0.0; 3])));
+    let all = bare.inverse(&tilted);
+    let mut same_arm = 0;
+    for s in &all {
+        let on_arm = (0..3).all(|j| circ_dist(s[j], q[j]) < 1e-2);
+        if on_arm {
+            same_arm += 1;
+        } else if rp.theta(s)[4].sin().abs() < 0.02 {
+            mon.inconclusive("continuity_with_shape:second-branch-near-singular");
+            return;
+        }
+    }
+    if same_arm == 0 {
+        mon.inconclusive("continuity_with_shape:arm-not-found-in-tilted-solve");
+        return;
+    }
+    // obstacles on other branches, so that the filter has something to remove
+    let pose = free.forward(&q);
+    let others: Vec<[f64; 6]> = free.inverse(&pose).into_iter().filter(|b| (0..3).any(|j| circ_dist(b[j], q[j]) > 1e-2)).collect();
+    for _ in 0..rng.usize(3) {
+        if let Some(b) = others.get(rng.usize(others.len().max(1))) {
+            let (target, gap) = (1 + rng.usize(5), rng.range(-0.03, 0.01));
+            cell.add_designed_obstacle(rng, b, target, gap);
+            if cell.build().collides(&q) {
+                cell.env.pop();
+            }
+        }
+    }
+    let robot = cell.build();
+    if robot.collides(&q) || !cell.constraints.compliant(&q) {
+        mon.inconclusive("continuity_with_shape:posture-not-legal");
+        return;
+    }
+    let s_tol = 4.0 * 1.25e-7 * sens + 1.5e-6;
+    mon.count("continuity_with_shape.evaluated");
+    for rep in 0..12 {
+        let sols = robot.inverse_continuing(&pose, &q);
+        mon.count("continuity_with_shape.calls");
+        match sols.first() {
+            Some(s) if (0..6).all(|j| (s[j] - q[j]).abs() <= s_tol) => mon.held(),
+            _ => {
+                mon.violation("continuity:with-shape:first-answer-not-previous", "wrist-singular pose, the previous joints realise it and are free and legal, but the first continuation answer of the robot with shape is not the previous joints", json!({"cell": cell.json(), "q": jf(&q), "repeat": rep, "sensitivity": sens, "answers": sols.iter().map(|s| jf(s)).collect::<Vec<_>>()}));
+                return;
+            }
+        }
+    }
+    mon.nontrivial(hash_combine(robot_hash(&cell.robot), hash_f64s(&q)));
+}
+
 fn run_case(kind: &str, idx: u64, rng: &mut Rng, mon: &mut Mon, _tier: Tier) {
+    if kind == "continuity_with_shape" {
+        return continuity_with_shape(idx, rng, mon);
+    }
     if kind == "detection" {
         detection(idx, rng, mon)
     } else {
@@ -45,7 +128,7 @@ fn run_case(kind: &str, idx: u64, rng: &mut Rng, mon: &mut Mon, _tier: Tier) {
 fn detection(idx: u64, rng: &mut Rng, mon: &mut Mon) {
     let robot = gen_robot(rng, idx, RobotMode::NonDegenerate, 0.0);
     let rp = robot.rp;
-    let kin = OPWKinematics::new(to_params(&rp));
+    let kin = make_solver(rng, &rp);
     let mut q = joints_uniform(rng, PI);
     let k = rng.int(-2, 2) as i32;
     let inside = rng.bool(0.5);
@@ -138,7 +221,7 @@ fn continuity(idx: u64, rng: &mut Rng, mon: &mut Mon) {
         p.c4 *= k;
     }
     let rp = robot.rp;
-    let kin = OPWKinematics::new(to_params(&rp));
+    let kin = make_solver(rng, &rp);
     let mut q = joints_uniform(rng, PI);
     place_t5(&rp, &mut q, 0, 0.0);
     let sens = wc_sensitivity(&rp, &q);
